@@ -265,6 +265,8 @@ func init() {
 			{Scenario: "mux.wclose", Params: vx.P("writers", "1", "len", "600", "conns", "2"), Bound: b(1, 2), Weight: 8},
 			// a Close (or a Write) that is the first operation to meet a connection fault: parked readers return
 			{Scenario: "mux.faultsend", Params: vx.P("conns", "2"), Bound: b(1, 2), Weight: 5},
+			{Scenario: "mux.readfromclose", Params: vx.P("conns", "1"), Bound: b(2, 4), Weight: 3},
+			{Scenario: "mux.readfromclose", Params: vx.P("conns", "2"), Bound: b(2, 3), Weight: 3},
 			{Scenario: "mux.stalledwriter", Params: vx.P("via", "write"), Bound: b(2, 3), Weight: 2},
 			{Scenario: "mux.stalledwriter", Params: vx.P("via", "readfrom"), Bound: b(2, 3), Weight: 2},
 			{Scenario: "mux.close", Params: vx.P("data", "300", "mode", "srvinit"), Bound: b(2, 3), Weight: 6},
